@@ -224,6 +224,12 @@ impl Parser {
                     }
                 }
 
+                if !function_type.is_associated_fn() && !function_type.is_constructor() {
+                    // a field that HOLDS a function is not a method of the object: it is called with the
+                    // arguments as written, the object is not handed over as `self`
+                    assume_self_is_on_top = false;
+                }
+
                 let arguments = Self::function_arguments(
                     arguments,
                     function_type.parameters(),
